@@ -6,25 +6,30 @@ import (
 	"fmt"
 	"math/rand"
 	"strings"
+	"sync"
 
 	"verifharness/hxlib"
 )
 
 const rule = "A case is one history on a fresh database (hashmap ±shadow-delete, bbolt, a harness-owned injected storage, the runtime registry): " +
 	"query objects (key prefix × condition tree over N/S, shared between subscriptions and hooks), subscribe/cancel through interfaces with all " +
-	"Local/Internal/AlwaysMakeSecret/AlwaysMakeCrownjewel combinations, hook register/cancel (phases × pass/veto/replace), Put/PutNew/Delete/MakeSecret/" +
-	"MakeCrownJewel/SetAbsoluteExpiry/InsertValue/Get/PushUpdate on keys inside and outside the prefixes with all flag combinations, feeds drained after every " +
-	"operation (or not at all until > 1000 writes: overflow kind), raw storage reads around vetoed writes, delayed-write interfaces, malformed lines; " +
+	"Local/Internal/AlwaysMakeSecret/AlwaysMakeCrownjewel/AlwaysSetAbsoluteExpiry combinations, hook register/cancel (phases × pass/veto/replace), Put/PutNew/Delete/MakeSecret/" +
+	"MakeCrownJewel/SetAbsoluteExpiry/SetRelativateExpiry (duration 0 or -1)/InsertValue/Get/Exists/PushUpdate on keys inside and outside the prefixes with all flag combinations, feeds drained after every " +
+	"operation (or not at all until > 1000 writes: overflow kind; fullfeed kind: one subscription is never read until its feed is full and beyond while 1–3 others on the same writes, subscribed before and after it, are read all the time or now and then — drain1), raw storage reads around vetoed writes, delayed-write interfaces, malformed lines; " +
 	"config-push / config-db kinds: the real config package injected as database — option updates pushed, and its StorageInterface driven through the database interface " +
 	"(Put with / without / null Value, Delete, unregistered key, Get) and the config API (SetConfigOption, ReplaceConfig) with exact/prefix/other subscriptions, before and after cancel; " +
+	"purge kind: Interface.Purge of a subscribed prefix on a fresh bbolt database (0–5 records, interfaces with all / some / no privileges), implementation only; " +
+	"putmany lines: one-record batches through Interface.PutMany on hashmap / bbolt; " +
 	"concurrent kind: recorded traces of writers vs. Subscribe vs. Cancel (forced at the verif event points) replayed through the interleaving model. " +
-	"Non-trivial = at least one subscription or hook is active and at least one write succeeds while it is (sequential), or at least one send/cancel event (concurrent); " +
+	"hconc kind: recorded traces of gets / puts (pre-get, post-get, pre-put hook phases; pass and veto hooks with prefix × condition queries) vs. 0–2 concurrent RegisteredHook.Cancel per hook, " +
+	"with the operation parked inside an earlier hook's call while a later hook is cancelled, Cancel called during a call of the same hook, Cancel inside its locked section vs. arriving operation, random pairs; replayed through the interleaving model of hooksLock. " +
+	"Non-trivial = at least one subscription or hook is active and at least one write succeeds while it is (sequential), or at least one send/cancel event (concurrent), or at least one hook call (hconc); " +
 	"distinct = different op/event sequences."
 
 var (
 	genKeys     = []string{"a/x", "a/y", "a/b/z", "b/x", "ab", "a/x/1", "c"}
 	genPrefixes = []string{"-", "a", "a/", "a/b", "b", "a/x", "zz", "-", "a/"}
-	genIfaces   = []string{"LI", "LI", "LI", "LI", "L", "I", "-", "-", "LIS", "LIC", "S", "C", "IS", "LC", "LISC"}
+	genIfaces   = []string{"LI", "LI", "LI", "LI", "L", "I", "-", "-", "LIS", "LIC", "S", "C", "IS", "LC", "LISC", "LIE", "E", "LSE"}
 	genStrs     = []string{"foo", "bar", "fob", "baz"}
 	genFlags    = []string{"-", "-", "-", "-", "-", "-", "s", "c", "sc", "d", "p", "f", "sd", "cf", "dp"}
 )
@@ -158,6 +163,15 @@ func (g *seqGen) op() {
 		if rng.Intn(100) < 15 {
 			op = "putnew"
 		}
+		if (g.kind == "hashmap" || g.kind == "bbolt") && rng.Intn(100) < 4 {
+			// a batch through Interface.PutMany (documented to skip hooks and subscribers: known finding)
+			key := g.key()
+			g.emit(fmt.Sprintf("putmany %s %s %d %s %s", pick(rng, []string{"LI", "LI", "LI", "L", "-", "LIS"}), key, rng.Intn(10), pick(rng, genStrs), pick(rng, []string{"-", "-", "s", "d"})))
+			g.emit("drain")
+			g.emit("raw " + key)
+			g.r.Count("op:putmany")
+			return
+		}
 		key := g.key()
 		raw := g.vetoes && rng.Intn(100) < 50
 		if raw {
@@ -171,7 +185,7 @@ func (g *seqGen) op() {
 		g.writes++
 		g.r.Count("op:" + op)
 	case x < 72:
-		op := pick(rng, []string{"del", "del", "mksec", "mkcj", "exp", "ins"})
+		op := pick(rng, []string{"del", "del", "del", "mksec", "mksec", "mkcj", "mkcj", "exp", "exp", "ins", "ins", "relexp"})
 		key := g.key()
 		raw := rng.Intn(100) < 65
 		if raw {
@@ -182,6 +196,8 @@ func (g *seqGen) op() {
 			g.emit(fmt.Sprintf("exp %s %s %s", pick(rng, genIfaces), key, pick(rng, []string{"p", "f"})))
 		case "ins":
 			g.emit(fmt.Sprintf("ins %s %s %d", pick(rng, genIfaces), key, rng.Intn(10)))
+		case "relexp":
+			g.emit(fmt.Sprintf("relexp %s %s %s", pick(rng, genIfaces), key, pick(rng, []string{"0", "-1"})))
 		default:
 			g.emit(fmt.Sprintf("%s %s %s", op, pick(rng, genIfaces), key))
 		}
@@ -194,8 +210,13 @@ func (g *seqGen) op() {
 	case x < 84:
 		key := g.key()
 		g.emit("raw " + key) // what is stored: the monitor's own reading of the get-hook clause starts from it
-		g.emit(fmt.Sprintf("get %s %s", pick(rng, genIfaces), key))
-		g.r.Count("op:get")
+		if rng.Intn(100) < 25 {
+			g.emit(fmt.Sprintf("exists %s %s", pick(rng, genIfaces), key))
+			g.r.Count("op:exists")
+		} else {
+			g.emit(fmt.Sprintf("get %s %s", pick(rng, genIfaces), key))
+			g.r.Count("op:get")
+		}
 	case x < 92:
 		if g.kind == "inj" || g.kind == "reg" || rng.Intn(100) < 30 {
 			g.emit(fmt.Sprintf("push %s %d %s %s", g.key(), rng.Intn(10), pick(rng, genStrs), pick(rng, genFlags)))
@@ -277,13 +298,167 @@ func genOverflow(r *hxlib.Run) hxlib.Case {
 	return hxlib.Case{Lines: l, Kind: "seq:overflow", NonTrivial: true}
 }
 
+// implFeedCap: the capacity of a feed as the implementation makes it (probed once on a scratch database): the
+// full-feed histories must reach the point where the code's buffer is full, whatever its size is; the monitor keeps
+// the statement's 1000.
+var implFeedCapOnce struct {
+	sync.Once
+	n int
+}
+
+func implFeedCap() int {
+	implFeedCapOnce.Do(func() {
+		implFeedCapOnce.n = feedCapStatement
+		w := newWorld()
+		if w.open("hashmap", false) != "ok" {
+			return
+		}
+		defer w.Close()
+		w.Do("q 0 - T")
+		if w.Do("sub 0 LI 0") == "ok" {
+			if s := w.findSub("0"); s != nil {
+				implFeedCapOnce.n = cap(s.sub.Feed)
+				_ = s.sub.Cancel()
+			}
+		}
+	})
+	return implFeedCapOnce.n
+}
+
+// genFullFeed: the "as long as the feed buffer is not full" proviso is per subscription. One subscription (the slow
+// one) is never read until its feed is full and beyond; 1–3 other subscriptions whose queries match (all or part of)
+// the same writes are registered before and after it and are read all the time (`drain1`) or now and then, so that
+// feeds of different fill levels — full, nearly full, empty — are in the controller's list in every order when the
+// writes past the slow one's capacity arrive. Ends with everything drained and a few more writes.
+func genFullFeed(r *hxlib.Run, canonical bool) hxlib.Case {
+	rng := r.Rng
+	var l []string
+	kind := pick(rng, []string{"hashmap 0", "hashmap 0", "hashmap 1", "inj 0"})
+	l = append(l, "db "+kind)
+	slowPrefix := pick(rng, []string{"a", "a/", "-", "a/x"})
+	if canonical {
+		// the first case of every run has the plain shape: the slow subscription first, then one on the same query
+		// object that is read after every write
+		return genFullFeedCanonical(r, l, slowPrefix)
+	}
+	l = append(l, fmt.Sprintf("q 0 %s T", slowPrefix))
+	nq := 1
+	type other struct {
+		sid     int
+		every   int // drained after every `every` writes; 0 = only at the end
+		drained int
+	}
+	var others []*other
+	nOthers := 1 + rng.Intn(3)
+	slowPos := rng.Intn(nOthers + 1) // how many others are subscribed before the slow one
+	if rng.Intn(100) < 60 {
+		slowPos = 0 // the case that matters most: everybody else comes after the full feed
+		if rng.Intn(100) < 30 {
+			slowPos = 1
+		}
+	}
+	slow := -1
+	nsub := 0
+	addOther := func() {
+		qid := 0 // the same query object as the slow subscription
+		switch x := rng.Intn(100); {
+		case x < 35:
+		case x < 60:
+			l = append(l, fmt.Sprintf("q %d %s T", nq, pick(rng, []string{"-", "a", "a/", slowPrefix})))
+			qid = nq
+			nq++
+		default:
+			l = append(l, fmt.Sprintf("q %d %s %s", nq, pick(rng, []string{"-", "a", slowPrefix}), genCond(rng, 1, false)))
+			qid = nq
+			nq++
+		}
+		l = append(l, fmt.Sprintf("sub %d %s %d", nsub, pick(rng, []string{"LI", "LI", "LI", "L", "I"}), qid))
+		o := &other{sid: nsub, every: pick2(rng, []int{1, 1, 1, 2, 7, 50, 0})}
+		others = append(others, o)
+		nsub++
+	}
+	for i := 0; i <= nOthers; i++ {
+		if i == slowPos {
+			l = append(l, fmt.Sprintf("sub %d LI 0", nsub))
+			slow = nsub
+			nsub++
+		}
+		if i < nOthers {
+			addOther()
+		}
+	}
+	keys := []string{"a/x", "a/x", "a/x/1", "a/y", "a/b/z", "ab", "b/x"}
+	inSlow := func(k string) bool { return strings.HasPrefix(k, unq(slowPrefix)) }
+	capN := implFeedCap()
+	if capN < feedCapStatement {
+		capN = feedCapStatement
+	}
+	extra := 1 + rng.Intn(8)
+	filled, nw := 0, 0
+	for filled < capN+extra && nw < 4*capN+100 {
+		k := pick(rng, keys)
+		switch x := rng.Intn(100); {
+		case x < 8:
+			l = append(l, fmt.Sprintf("push %s %d %s %s", k, nw%10, pick(rng, genStrs), pick(rng, []string{"-", "-", "s"})))
+		case x < 12:
+			l = append(l, fmt.Sprintf("put LI %s %d %s d", k, nw%10, pick(rng, genStrs))) // deletes are writes too
+		default:
+			l = append(l, fmt.Sprintf("put LI %s %d %s %s", k, nw%10, pick(rng, genStrs), pick(rng, []string{"-", "-", "-", "s", "c"})))
+		}
+		nw++
+		if inSlow(k) {
+			filled++
+		}
+		for _, o := range others {
+			if o.every > 0 && nw%o.every == 0 {
+				l = append(l, fmt.Sprintf("drain1 %d", o.sid))
+				o.drained++
+			}
+		}
+		if filled == capN && rng.Intn(100) < 30 {
+			l = append(l, "sizes")
+		}
+	}
+	r.Count(fmt.Sprintf("fullfeed:slow-at-position:%d-of-%d", slowPos, nOthers+1))
+	// the slow subscriber finally reads (or is cancelled first), everybody is read, a few more writes arrive
+	switch rng.Intn(4) {
+	case 0:
+		l = append(l, fmt.Sprintf("cancel %d", slow))
+	case 1:
+		l = append(l, fmt.Sprintf("drain1 %d", slow), "put LI a/x 3 foo -", "push a/x/1 4 bar -")
+	}
+	l = append(l, "drain", "put LI a/x 5 foo -", "put LI a/y 6 baz -", "drain", "sizes")
+	return hxlib.Case{Lines: l, Kind: "seq:fullfeed", NonTrivial: true}
+}
+
+func genFullFeedCanonical(r *hxlib.Run, l []string, slowPrefix string) hxlib.Case {
+	rng := r.Rng
+	l = append(l, fmt.Sprintf("q 0 %s T", slowPrefix), "sub 0 LI 0", "sub 1 LI 0", "sub 2 L 0")
+	capN := implFeedCap()
+	if capN < feedCapStatement {
+		capN = feedCapStatement
+	}
+	key := map[string]string{"a": "a/x", "a/": "a/y", "-": "b/x", "a/x": "a/x/1"}[slowPrefix]
+	for i := 0; i < capN+3+rng.Intn(4); i++ {
+		l = append(l, fmt.Sprintf("put LI %s %d %s -", key, i%10, pick(rng, genStrs)), "drain1 1")
+		if i%97 == 0 {
+			l = append(l, "drain1 2")
+		}
+	}
+	l = append(l, "drain1 2", "drain", "put LI "+key+" 5 foo -", "drain", "sizes")
+	r.Count("fullfeed:canonical")
+	return hxlib.Case{Lines: l, Kind: "seq:fullfeed", NonTrivial: true}
+}
+
+func pick2(rng *rand.Rand, l []int) int { return l[rng.Intn(len(l))] }
+
 // genMalformed: lines outside the grammar (both sides must answer bad-op and stay intact).
 func genMalformed(r *hxlib.Run) hxlib.Case {
 	rng := r.Rng
 	bad := []string{"frob", "put", "put LI", "put LI a/x 1 foo", "put XX a/x 1 foo -", "put LI a/x one foo -", "put LI a/x 1 foo zz",
 		"sub 0 LI 99", "sub x LI 0", "cancel 99", "cancel", "unhook 7", "hook 0 0 p p", "hook 0 0 s1 p p", "hook 0 0 q p p", "q 0 - T",
-		"q 5 - gt", "q 6 - & gt 1", "q 7 A T", "q 8 - T T", "get LI", "get LI A", "del QQ a/x", "exp LI a/x z", "ins LI a/x x", "db hashmap 0",
-		"db bbolt 1", "db foo 0", "raw", "raw A", "flush LI", "drain now", "sizes 1", "push a/x 1 foo", "put LI+x a/x 1 foo -", "get LI+w a/x",
+		"q 5 - gt", "q 6 - & gt 1", "q 7 A T", "q 8 - T T", "get LI", "get LI A", "exists LI", "exists LI+w a/x", "relexp LI a/x 5", "relexp LI a/x", "del QQ a/x", "exp LI a/x z", "ins LI a/x x", "db hashmap 0",
+		"db bbolt 1", "db foo 0", "raw", "raw A", "flush LI", "drain now", "sizes 1", "push a/x 1 foo", "put LI+x a/x 1 foo -", "get LI+w a/x", "putmany LI+w a/x 1 foo -", "putmany LI a/x 1 foo", "putmany ZZ a/x 1 foo -",
 		"sub 3 LI+w 0", "put L+w a/x 1 foo -"}
 	var l []string
 	for i, n := 0, rng.Intn(3); i < n; i++ {
@@ -343,6 +518,9 @@ func gen(r *hxlib.Run, emit func(hxlib.Case)) {
 			emit(genMalformed(r))
 		}
 	}
+	for i, n := 0, r.Budget(8, 60); i < n; i++ {
+		emit(genFullFeed(r, i == 0))
+	}
 	for i, n := 0, r.Budget(4, 40); i < n; i++ {
 		emit(genOverflow(r))
 	}
@@ -351,6 +529,9 @@ func gen(r *hxlib.Run, emit func(hxlib.Case)) {
 	}
 	for i, n := 0, r.Budget(60, 600); i < n; i++ {
 		toks := []string{"cfgops"}
+		if r.Rng.Intn(100) < 60 {
+			toks = append(toks, pick(r.Rng, cfgTypeTokens))
+		}
 		for j, m := 0, 2+r.Rng.Intn(7); j < m; j++ {
 			t := pick(r.Rng, cfgTokens)
 			toks = append(toks, t)
@@ -358,5 +539,9 @@ func gen(r *hxlib.Run, emit func(hxlib.Case)) {
 		}
 		emit(hxlib.Case{Lines: []string{strings.Join(toks, " ")}, Kind: "config-db", NonTrivial: true, NoModel: true})
 	}
+	for i, n := 0, r.Budget(12, 120); i < n; i++ {
+		emit(hxlib.Case{Lines: []string{fmt.Sprintf("purgecase %d %s", r.Rng.Intn(6), pick(r.Rng, []string{"LI", "LI", "L", "I", "-"}))}, Kind: "purge", NonTrivial: i < 6, NoModel: true})
+	}
 	genConcurrent(r, emit)
+	genHConcurrent(r, emit)
 }
